@@ -74,9 +74,10 @@ impl<BE: Backend + CKKSImpl<BE>> CKKSAddManyOps<BE> for Module<BE> {
             0 => bail!("ckks_add_many: inputs must contain at least one ciphertext"),
             1 => {
                 let offset = dst.offset_unary(inputs[0]);
+                let log_budget = checked_log_budget_sub("ckks_add_many", inputs[0].log_budget(), offset)?;
                 self.glwe_lsh(dst, inputs[0], offset, scratch);
                 dst.meta = inputs[0].meta();
-                dst.meta.log_budget = checked_log_budget_sub("ckks_add_many", inputs[0].log_budget(), offset)?;
+                dst.meta.log_budget = log_budget;
             }
             _ => {
                 ensure_accumulation_fits("ckks_add_many", dst, inputs.len())?;
@@ -122,9 +123,10 @@ where
     match inputs.len() {
         1 => {
             let offset = dst.offset_unary(inputs[0]);
+            let log_budget = checked_log_budget_sub("ckks_mul_many", inputs[0].log_budget(), offset)?;
             module.glwe_lsh(dst, inputs[0], offset, scratch);
             dst.meta = inputs[0].meta();
-            dst.meta.log_budget = checked_log_budget_sub("ckks_mul_many", inputs[0].log_budget(), offset)?;
+            dst.meta.log_budget = log_budget;
             Ok(())
         }
         2 => module.ckks_mul_into(dst, inputs[0], inputs[1], tsk, scratch),
